@@ -200,6 +200,9 @@ func (w *World) Disconnect() {
 	_ = w.Mn.UnlinkPeers(w.A.ID(), w.B.ID())
 }
 
+// Drop makes every held and future message get lost (used after a node was stopped).
+func (w *World) Drop() { w.down = true }
+
 // Reconnect restores the link.
 func (w *World) Reconnect() {
 	_, _ = w.Mn.LinkPeers(w.A.ID(), w.B.ID())
